@@ -119,3 +119,65 @@ Proof.
   - apply bridge_abs_advance; assumption.
   - intros n Hn. apply bridge_lost_flush; assumption.
 Qed.
+
+(* ================= report(): fraction lost, 24-bit clamp, extended highest sequence number =================
+   (spec lines in tools/go2coq/spec.d/receiver.txt; the builtin min is an opaque call of the kernels, its two arguments
+   are bridged separately: the clamped counter and the literal 0xFFFFFF) *)
+Definition u64 (x : Z) : Prop := 0 <= x < 18446744073709551616.
+
+(* fractionLost = uint8((min(rr.lostSinceReport, 0xFFFFFF) * 256) / rr.receivedAndLostSinceReport) *)
+Lemma bridge_rep_fraction m ral : 0 <= m <= 16777215 -> u64 ral -> ral <> 0 ->
+  k_recv_rep_fraction m ral = Some (w8 ((m * 256) / ral)).
+Proof.
+  unfold u64, k_recv_rep_fraction. intros Hm Hr Hnz. destruct (Z.eqb_spec ral 0) as [E|_]; [contradiction|]. f_equal.
+  assert (E1 : w64 (m * 256) = m * 256) by (unfold w64; lia). rewrite E1.
+  rewrite Z.quot_div_nonneg by lia.
+  assert (E2 : w64 (m * 256 / ral) = m * 256 / ral).
+  { unfold w64. apply Z.mod_small. split; [apply Z.div_pos; lia|].
+    apply Z.le_lt_trans with (m * 256); [apply Z.div_le_upper_bound; nia|lia]. }
+  rewrite E2. reflexivity.
+Qed.
+Lemma bridge_rep_fraction_zero m : k_recv_rep_fraction m 0 = None.
+Proof. reflexivity. Qed.
+
+(* LastSequenceNumber: uint32(rr.sequenceNumberCycles)<<16 | uint32(rr.lastSequenceNumber) *)
+Lemma bridge_rep_ext cyc lst : u16 cyc -> u16 lst ->
+  k_recv_rep_ext cyc lst = Z.lor (w32 (Z.shiftl cyc 16)) lst /\ k_recv_rep_ext cyc lst = cyc * 65536 + lst.
+Proof.
+  unfold u16, k_recv_rep_ext. intros Hc Hl.
+  assert (Ec : w32 cyc = cyc) by (apply w32_small; lia). assert (El : w32 lst = lst) by (apply w32_small; lia).
+  rewrite Ec, El. rewrite Z.shiftl_mul_pow2 by lia. change (2 ^ 16) with 65536.
+  assert (Es : w32 (cyc * 65536) = cyc * 65536) by (apply w32_small; lia). rewrite Es.
+  assert (Eo : Z.lor (cyc * 65536) lst = cyc * 65536 + lst).
+  { assert (El0 : Z.land (cyc * 2 ^ 16) lst = 0).
+    { apply Z.bits_inj'. intros n Hn. rewrite Z.land_spec, Z.bits_0.
+      destruct (Z.lt_ge_cases n 16) as [L|G]; [rewrite Z.mul_pow2_bits_low by lia; reflexivity|].
+      destruct (Z.eq_dec lst 0) as [->|Hnz]; [rewrite Z.bits_0; apply andb_false_r|].
+      rewrite (Z.bits_above_log2 lst n); [apply andb_false_r|lia|].
+      assert (Z.log2 lst < 16) by (apply Z.log2_lt_pow2; [lia|change (2 ^ 16) with 65536; lia]). lia. }
+    change 65536 with (2 ^ 16). rewrite (Z.add_nocarry_lxor _ _ El0). symmetry. apply Z.lxor_lor. exact El0. }
+  rewrite Eo. rewrite w32_small by lia. split; reflexivity.
+Qed.
+
+(* Model.report written with the translated kernels (ClockRate != 0 is a fixed parameter of the model) *)
+Definition report_k (s : st) : option (st * block) :=
+  if k_recv_rep_skip (first s) 1 then None else
+  let fl := if k_recv_rep_haveloss (ralS s)
+            then match k_recv_rep_fraction (Z.min (k_recv_rep_clamped_f (lostS s)) k_recv_rep_clamp_f) (ralS s) with
+                 | Some f => f | None => 0 end
+            else 0 in
+  Some (mkSt (unrel s) (first s) (buf s) (absPos s) (neg s) (cycles s) (last s) (lost s) 0 (recv s) 0,
+        mkBlock (k_recv_rep_ext (cycles s) (last s)) fl
+                (k_recv_rep_total (Z.min (k_recv_rep_clamped_t (lost s)) k_recv_rep_clamp_t))).
+
+Theorem report_kernels_are_the_code s :
+  u16 (cycles s) -> u16 (last s) -> 0 <= lostS s -> u64 (ralS s) ->
+  report s = report_k s.
+Proof.
+  intros Hc Hl Hls Hr. unfold report, report_k, k_recv_rep_skip, k_recv_rep_haveloss, k_recv_rep_clamped_f,
+    k_recv_rep_clamped_t, k_recv_rep_clamp_f, k_recv_rep_clamp_t, k_recv_rep_total.
+  change (1 =? 0) with false. rewrite orb_false_r. destruct (first s); cbn [negb]; [|reflexivity].
+  destruct (bridge_rep_ext _ _ Hc Hl) as [Ee _]. rewrite Ee.
+  destruct (Z.eqb_spec (ralS s) 0) as [E0|Hnz]; cbn [negb]; [reflexivity|].
+  rewrite bridge_rep_fraction by (try assumption; lia). reflexivity.
+Qed.
